@@ -225,7 +225,12 @@ def shape_contracts(name,shapes,props=('C06',)):
   cs.append(Contract(f'{K}.to_bits', native=nat('to_bits'), view={'self':ST},
     cases=[Case('wf', requires=f'wf_{name}(self)', ensures=f'valid(result) and result._nbits == {W} and result._uint == pack_{name}(self) and fresh(result)', source=S_LAYOUT)],
     modifies=[], returns=BitsT, property_ids=props))
-  cs.append(Contract(f'{K}.from_bits', native=nat('from_bits'), view={'cls':ClsT(name),'other':BitsT},
+  def fb_sample(rng,n,variant,repo,reg):
+    from pymtl3.datatypes import mk_bits
+    w=rng.choice([W,W,W,W,max(1,W-1),min(1023,W+1)])
+    b=mk_bits(w)(); object.__setattr__(b,'_uint',rng.choice([0,2**w-1,rng.getrandbits(w),rng.getrandbits(w)]))
+    return {'cls':None,'other':b}
+  cs.append(Contract(f'{K}.from_bits', native=nat('from_bits'), sample=fb_sample, view={'cls':ClsT(name),'other':BitsT},
     cases=[Case('same-width', requires=f'valid(other) and other._nbits == {W}', ensures=f'wf_{name}(result) and pack_{name}(result) == other._uint and allfresh_{name}(result)', source=S_RT+' / '+S_LAYOUT),
            Case('other-width', requires=f'valid(other) and other._nbits != {W}', raises='Exception', raises_today='AssertionError', source="C04/C06: a value of another width is an error")],
     modifies=[], returns=ST, property_ids=props))
